@@ -6,6 +6,7 @@ method `tokenize`, the constructor parameter names (public API) and the three mo
 Fields, helpers, the frame buffer, the automaton field and the counters are discovered.
 """
 import ast
+import os
 import time
 
 from . import absint
@@ -114,13 +115,18 @@ class TokenizerAnalysis:
     def __init__(s, src_path, cls_name='StreamTokenizer', entry='tokenize'):
         s.path = src_path
         s.relname = 'auditok/core.py'
-        with open(src_path) as fp:
-            s.tree = ast.parse(fp.read())
-        cls = [n for n in s.tree.body if isinstance(n, ast.ClassDef) and n.name == cls_name]
-        if not cls:
+        # the whole package is parsed: the class may inherit from a private base class, use module-level constants / enums
+        # and call helper functions that live in this or in another module of the package
+        from .common import Repo
+        from .symex import Model
+        s.model = Model(Repo(os.path.dirname(os.path.dirname(os.path.abspath(src_path)))))
+        s.tree = s.model.mods['core']['tree']
+        h = s.model.home('core', cls_name)
+        if h is None or not isinstance(h[1], ast.ClassDef):
             raise AnalysisError('class %s not found in %s' % (cls_name, src_path))
-        s.cls = cls[0]
-        s.I = Interp(s.cls, s.relname)
+        s.cls = h[1]
+        s.relname = 'auditok/%s.py' % h[0]
+        s.I = Interp(s.cls, s.relname, model=s.model, mod=h[0])
         if entry not in s.I.methods or '__init__' not in s.I.methods:
             raise AnalysisError('entry point %s.%s / __init__ not found' % (cls_name, entry))
         s.entry = entry
